@@ -18,7 +18,13 @@ pub fn fstr(x: f32) -> String {
     // Remove trailing 0s and then trailing '.' if it exists.
     // Note: this assumes `result` is a well-formatted f32, and always
     // contains a '.' - otherwise '1000' would become '1'...
-    result.trim_end_matches('0').trim_end_matches('.').into()
+    let result = result.trim_end_matches('0').trim_end_matches('.');
+    // (-0.0004 rounds to "-0.000": there is no negative zero to write)
+    if result == "-0" {
+        "0".into()
+    } else {
+        result.into()
+    }
 }
 
 /// Parse a string to an f32
